@@ -474,8 +474,13 @@ fn gen_for(r: &mut Rng, t: &T, depth: usize, out: &mut String) {
                 },
             }
         }
-        T::Bytes => match r.below(4) {
+        T::Bytes => match r.below(6) {
             0 => gen_str_lit(r, out),
+            // a byte string is not text: serde_json takes an unpaired surrogate escape as its three bytes
+            4 | 5 => out.push_str(*r.pick(&[
+                "\"\\ud800\"", "\"\\udc00\"", "\"a\\ud83d\"", "\"\\ud800x\"", "\"\\ud800\\ud800\"", "\"\\ud800\\n\"", "\"\\ude00\\ud83d\"",
+                "\"\\ud83d\\ude00\"", "\"\\ud800\\u0041\"", "\"\\ud800\\\"", "\"\\ud800\\u12\"", "\"\\udbff\\udfff\\udfff\"",
+            ])),
             1 => out.push_str("[1,2,255]"),
             2 => out.push_str("[1,256]"),
             _ => out.push_str("[]"),
